@@ -262,7 +262,7 @@ def _core_alphabet(names):
 
 
 def run_bounded(chk, depth=None):
-    depth = depth or (2 if chk.tier == "quick" else 3)
+    depth = depth or (2 if chk.bounded_tier == "quick" else 3)
     fkey = "history explorer over the public mutators of the six vertex-based classes"
     chk.functions.setdefault(fkey, {"sha": "-", "paths": 0, "lines": 0, "bounded_only": True})
     tasks = []
@@ -277,7 +277,7 @@ def run_bounded(chk, depth=None):
             alphabet = names
             seqs = [(a,) for a in alphabet]
             if depth >= 2:
-                red = _core_alphabet(alphabet) if chk.tier == "quick" else alphabet
+                red = _core_alphabet(alphabet) if chk.bounded_tier == "quick" else alphabet
                 seqs += list(itertools.product(red, repeat=2))
             if depth >= 3:
                 rnd = random.Random(chk.seed + variant)
@@ -301,7 +301,7 @@ def run_bounded(chk, depth=None):
         c.bounded.append({"clause": f"{cls_name}: after every operation of every sequence all observables equal those of a "
                                     "fresh shape with the same geometry; reorientation keeps chirality; refused targets leave the state unchanged",
                           "bound": f"2 stock shapes; all sequences of length 1, all of length 2 "
-                                   f"({'reduced alphabet' if chk.tier == 'quick' else 'full alphabet'})"
+                                   f"({'reduced alphabet' if chk.bounded_tier == 'quick' else 'full alphabet'})"
                                    + ("; 300 seeded sequences of length 3 per shape" if depth >= 3 else ""),
                           "evaluations": n_ops, "distinct_nontrivial": n_seq,
                           "rule": "distinct = different operation sequences; operations: every settable property x {0.5, 2} x current, "
